@@ -1,7 +1,8 @@
 (* C14 - API changes are all-or-nothing and keep memory, store and references consistent:
    property theorems only.  Model: Api/Entities.v Services.v Orch.v (the code), Api/Spec.v (the
    all-or-nothing reference semantics and the list of bad (operation, store operation) sites). *)
-From Verif Require Import Api.Invariant Api.SpecWf Api.Refine Api.History Api.Guards Api.Refuted Api.Check Api.MonitorSound.
+From Verif Require Import Api.Invariant Api.SpecWf Api.Refine Api.History Api.Guards Api.Refuted Api.Check Api.MonitorSound
+  Api.MonitorComplete Api.Confine.
 
 (* a freshly started server satisfies the invariant, so everything below covers every state
    reachable through the API *)
@@ -108,11 +109,63 @@ Theorem C14_api_panic_connectors_delete :
 Proof. exact api_panic_connectors_delete. Qed.
 Print Assumptions C14_api_panic_connectors_delete.
 
-(* the executable monitor of the case files states the same property: what it accepts has exact
-   references in the sense of C14_refs_exact *)
+(* ---------- the executable monitor of the case files IS the property ---------- *)
+(* every boolean clause of [monitor_step] is equivalent to its proposition: all-or-nothing against the
+   reference semantics ([atomic_ok]: succeeded with the full effect, or failed with memory and store
+   as before; a panic is neither), memory = what Init loads ([reload_ok]), exact references
+   ([refs_ok]) and untouched guarded resources ([guards_ok]) *)
+Theorem C14_monitor_is_property : forall a o out b,
+  monitor_step a o out b = true <-> atomic_ok a o out b /\ reload_ok b /\ refs_ok b /\ guards_ok a b.
+Proof. exact monitor_step_iff. Qed.
+Print Assumptions C14_monitor_is_property.
+
 Theorem C14_monitor_refs_sound : forall s, refs_exact_b s = true -> refs_exact s.
 Proof. exact refs_exact_b_sound. Qed.
 Print Assumptions C14_monitor_refs_sound.
+
+(* model_satisfies_monitor: for every well-formed state, call and store failure outside the bad
+   sites, the monitor accepts the model's observation (in-memory maps + the store as Init loads it) *)
+Theorem C14_model_satisfies_monitor : forall s o f, wf s -> good_fault o f ->
+  monitor_step (observe s) o (fst (step f s o)) (observe (snd (step f s o))) = true.
+Proof. exact model_satisfies_monitor. Qed.
+Print Assumptions C14_model_satisfies_monitor.
+
+Theorem C14_history_satisfies_monitor : forall s h, wf s -> good_history h ->
+  all_calls (fun s o f => monitor_step (observe s) o (fst (step f s o)) (observe (snd (step f s o))) = true) s h.
+Proof. exact history_satisfies_monitor. Qed.
+Print Assumptions C14_history_satisfies_monitor.
+
+(* ---------- the damage of the open findings is confined ---------- *)
+(* at EVERY store-failure index, the 11 bad sites included: a call that did not succeed leaves the
+   store, the running set and (except Pipelines.Update) the name set as they were, and the in-memory
+   maps differ from before at most at the call's own resource and its parent ([touched]) *)
+Theorem C14_damage_confined : forall s o f, wf s ->
+  fst (step f s o) <> OOk -> confined_to (touched s (next s) o) o s (snd (step f s o)).
+Proof. exact step_confined. Qed.
+Print Assumptions C14_damage_confined.
+
+(* and for the update calls the touched instance keeps everything but the updated fields: e.g. after
+   Connectors.Update with any failure, only plugin/name/settings of that connector can differ *)
+Theorem C14_connectors_update_confined : forall s f cid plugin name settings c,
+  wf s -> lookup cid (cm s) = Some c ->
+  exists a b d, lookup cid (cm (snd (step f s (CnUpdate cid plugin name settings)))) = Some (cn_with_cfg c a b d).
+Proof. exact connectors_update_confined. Qed.
+Print Assumptions C14_connectors_update_confined.
+Theorem C14_processors_update_confined : forall s f rid plugin settings workers r,
+  wf s -> lookup rid (rm s) = Some r ->
+  exists a b d, lookup rid (rm (snd (step f s (PrUpdate rid plugin settings workers)))) = Some (pr_with_cfg r a b d).
+Proof. exact processors_update_confined. Qed.
+Print Assumptions C14_processors_update_confined.
+Theorem C14_pipelines_update_confined : forall s f pid name desc pl,
+  wf s -> lookup pid (pm s) = Some pl ->
+  exists a b, lookup pid (pm (snd (step f s (PlUpdate pid name desc)))) = Some (pl_with_cfg pl a b).
+Proof. exact pipelines_update_confined. Qed.
+Print Assumptions C14_pipelines_update_confined.
+Theorem C14_pipelines_updatedlq_confined : forall s f pid d pl,
+  wf s -> lookup pid (pm s) = Some pl ->
+  exists d', lookup pid (pm (snd (step f s (PlUpdateDLQ pid d)))) = Some (pl_with_dlq pl d').
+Proof. exact pipelines_updatedlq_confined. Qed.
+Print Assumptions C14_pipelines_updatedlq_confined.
 
 (* non-vacuity: a history with a store failure at a good site (the Commit of Connectors.Create):
    the call fails with the store error, the next call succeeds *)
